@@ -22,6 +22,7 @@ RULE = ('full product: every k-subset of a 19-observable pool (same-configuratio
 ASSUMPTIONS = ['Pearson reference is formed from the fluctuations keyed by configuration number on the common configurations (single-chain pairs)',
                'symmetry is demanded to 4 ulp (the final diag*corr*diag product is not bit-symmetric)']
 EXHAUSTIVE = True
+REPEAT = 2      # every case is evaluated twice in the same process: the second verdict must equal the first (call-history oracle)
 CHUNK = 1
 
 PARAMS = [{}, {'S': 0}, {'tau_exp': 3}]
